@@ -18,12 +18,13 @@ BUILT = {
             "Event-source stubs generate streams from the process each arrival model documents (not from the library's curve): phases, gap stretching, per-event release jitter with reordering, bursts where delta-min is 0, nested per-event delays for Propagated/clone_with_jitter, merged component streams. Every window [t_i, t_j] of the recorded history is counted against number_arrivals; the maximal-rate stream of Periodic/Sporadic must attain it."),
     "C12": ("3.8", "deterministic simulation: recorded traces and documented-process event streams of source models checked in every window against the derived objects; dense streams of derived objects against the source; delta_min_iter duality",
             "Recorded event traces (bursts, simultaneous events) are fed to Curve::from_trace and every window of every length of the trace is counted against the inferred curve. For derived objects (from_arrival_bound(_until), From impls, ArrivalCurvePrefix::from_arrival_bound_until) streams of the source's documented process are checked in every window against the derived object up to 6x the covered prefix, the derived object's dense stream against the source inside the prefix, and the two number_arrivals are compared along the scan (equal inside the covered prefix, derived >= source wherever the source is exact). delta_min_iter items are checked for duality with number_arrivals."),
+    "C13": ("3.9", "deterministic simulation: cooperative query clients on one shared ExtrapolatingCurve under a seeded scheduler, checked operation by operation against a fresh eager curve and a closure model; event streams constrained by the original prefix",
+            "Streams respecting only the original delta-min prefix are counted in every window against extrapolate / extrapolate_steps / extrapolate_with_bound results and ExtrapolatingCurve; prefix values must be unchanged and values may only tighten. 2-5 cooperative clients holding clones, jittered clones and RBFs that share one cache interleave number_arrivals / service_needed / lazy steps_iter operations (iterators stay open across other clients' mutations) under a seeded scheduler; every answer is compared with a fresh eagerly extrapolated Curve and an independent super-additive-closure model; any panic (RefCell) is a violation with the operation history as replay."),
 }
 
 NOT_YET = {
     "C04": "claimed in DESIGN.md section 3.4; check not built yet (in progress)",
     "C05": "claimed in DESIGN.md section 3.5; check not built yet (in progress)",
-    "C13": "claimed in DESIGN.md section 3.9; check not built yet (in progress)",
     "C14": "claimed in DESIGN.md section 3.10; check not built yet (in progress)",
 }
 
